@@ -59,6 +59,58 @@ theorem lemma_4d_glue (f : ℝ → ℝ) (a b c : ℝ)
 theorem lemma_4d_onto (f : ℝ → ℝ) (a b : ℝ) (hab : a ≤ b) (hf : ContinuousOn f (Set.Icc a b)) :
     Set.Icc (f a) (f b) ⊆ f '' Set.Icc a b := intermediate_value_Icc hab hf
 
+/-- 4g (general Gaussian): the density with location μ and variance v > 0 integrates to one (Mathlib's `gaussianPDFReal` is
+(√(2πv))⁻¹ · exp(−(x−μ)²/(2v)), i.e. exp of the log-density the normal classes return with v = exp(2·log_std)). -/
+theorem lemma_4g_general (μ : ℝ) (v : NNReal) (hv : v ≠ 0) : ∫ x, ProbabilityTheory.gaussianPDFReal μ v x = 1 :=
+  ProbabilityTheory.integral_gaussianPDFReal_eq_one μ hv
+
+theorem lemma_4g_general_formula (μ : ℝ) (v : NNReal) (x : ℝ) :
+    ProbabilityTheory.gaussianPDFReal μ v x = (Real.sqrt (2 * Real.pi * v))⁻¹ * Real.exp (-(x - μ) ^ 2 / (2 * v)) := rfl
+
+/-- 4h (cubic discriminant): a depressed cubic t³ + p t + q with 4p³ + 27q² > 0 has at most one real root.
+(Two distinct real roots t₁ ≠ t₂ force 4p³ + 27q² = −(t₁−t₂)²(2t₁+t₂)²(t₁+2t₂)² ≤ 0.) -/
+theorem lemma_4h (p q t₁ t₂ : ℝ) (h₁ : t₁ ^ 3 + p * t₁ + q = 0) (h₂ : t₂ ^ 3 + p * t₂ + q = 0)
+    (hd : 0 < 4 * p ^ 3 + 27 * q ^ 2) : t₁ = t₂ := by
+  by_contra hne
+  have hsub : (t₁ - t₂) * (t₁ ^ 2 + t₁ * t₂ + t₂ ^ 2 + p) = 0 := by
+    have : (t₁ - t₂) * (t₁ ^ 2 + t₁ * t₂ + t₂ ^ 2 + p) = (t₁ ^ 3 + p * t₁ + q) - (t₂ ^ 3 + p * t₂ + q) := by ring
+    rw [this, h₁, h₂]; ring
+  have hp : p = -(t₁ ^ 2 + t₁ * t₂ + t₂ ^ 2) := by
+    rcases mul_eq_zero.mp hsub with h | h
+    · exact absurd (sub_eq_zero.mp h) hne
+    · linarith
+  have hq : q = -(t₁ ^ 3 + p * t₁) := by linarith
+  have key : 4 * p ^ 3 + 27 * q ^ 2 = -((t₁ - t₂) ^ 2 * (2 * t₁ + t₂) ^ 2 * (t₁ + 2 * t₂) ^ 2) := by
+    rw [hq, hp]; ring
+  have : 0 ≤ (t₁ - t₂) ^ 2 * (2 * t₁ + t₂) ^ 2 * (t₁ + 2 * t₂) ^ 2 := by positivity
+  linarith
+
+/-- the discriminant the code computes (δ₁ = c' − b'², δ₂ = d' − b'c', δ₃ = b'd' − c'²) against the depressed cubic's p = 3δ₁, q = −2b'δ₁ + δ₂:
+4δ₁δ₃ − δ₂² = −(4p³ + 27q²)/27, so `discriminant < 0` in cubic.py is exactly the hypothesis of lemma 4h. -/
+theorem lemma_4h_code_discriminant (b c d : ℝ) :
+    4 * (c - b ^ 2) * (b * d - c ^ 2) - (d - b * c) ^ 2
+      = -(4 * (3 * (c - b ^ 2)) ^ 3 + 27 * (-2 * b * (c - b ^ 2) + (d - b * c)) ^ 2) / 27 := by
+  ring
+
+/-- 4e (change of variables, one dimension): for a differentiable bijection f of the line, the pulled-back density
+x ↦ |f' x| · p (f x) has the same total mass as p.  (This is the flow density exp(log p(f(x)) + log|det J|).) -/
+theorem lemma_4e_1d (f f' p : ℝ → ℝ) (hf : ∀ x, HasDerivAt f (f' x) x) (hinj : Function.Injective f) (hsurj : Function.Surjective f) :
+    ∫ x, |f' x| * p (f x) = ∫ y, p y := by
+  have h := MeasureTheory.integral_image_eq_integral_abs_deriv_smul (s := Set.univ) MeasurableSet.univ
+    (fun x _ => (hf x).hasDerivWithinAt) (hinj.injOn) p
+  rw [Set.image_univ, hsurj.range_eq] at h
+  simpa [MeasureTheory.Measure.restrict_univ, smul_eq_mul] using h.symm
+
+/-- 4f (iterated form): if every conditional x₂ ↦ p₂ x₁ x₂ integrates to one and p₁ integrates to one, the autoregressive product
+p₁(x₁)·p₂(x₂ | x₁) has iterated integral one (induction over the features gives any number of factors). -/
+theorem lemma_4f_iterated (p₁ : ℝ → ℝ) (p₂ : ℝ → ℝ → ℝ) (h₁ : ∫ x₁, p₁ x₁ = 1) (h₂ : ∀ x₁, ∫ x₂, p₂ x₁ x₂ = 1) :
+    ∫ x₁, (∫ x₂, p₁ x₁ * p₂ x₁ x₂) = 1 := by
+  have : ∀ x₁, (∫ x₂, p₁ x₁ * p₂ x₁ x₂) = p₁ x₁ := by
+    intro x₁
+    rw [MeasureTheory.integral_const_mul, h₂ x₁, mul_one]
+  simp_rw [this]
+  exact h₁
+
 /-- 4g (Gaussian normaliser): ∫ exp(-x²/2) dx = √(2π). -/
 theorem lemma_4g_gaussian : ∫ x : ℝ, Real.exp (-(1/2 : ℝ) * x ^ 2) = Real.sqrt (2 * Real.pi) := by
   rw [integral_gaussian (1/2 : ℝ)]
@@ -122,6 +174,9 @@ end NflowsLemmas
 #print axioms NflowsLemmas.lemma_orthogonal_mul
 #print axioms NflowsLemmas.lemma_4d_glue
 #print axioms NflowsLemmas.lemma_4d_onto
+#print axioms NflowsLemmas.lemma_4h
+#print axioms NflowsLemmas.lemma_4f_iterated
+#print axioms NflowsLemmas.lemma_4e_1d
 #print axioms NflowsLemmas.lemma_4g_gaussian
 #print axioms NflowsLemmas.ax_tanh
 #print axioms NflowsLemmas.ax_softmax
